@@ -92,9 +92,9 @@ def api_cases(ctx):
     """Generator of (tag, spec). Every ill-formed spec is followed by its repaired twin as a well-formed control."""
     rng = ctx.rng
 
-    def with_control(tag, s):
+    def with_control(tag, s, p=1.0):
         yield (tag, s)
-        if dagproj.analyse(s)["ill"]:
+        if (p >= 1.0 or rng.random() < p) and dagproj.analyse(s)["ill"]:
             yield ("control", dagproj.repair(s))
 
     for tag, s in corpus():
@@ -113,21 +113,22 @@ def api_cases(ctx):
         s = dagproj.small_to_spec(c, style_bits, py_bits)
         if py_bits and rng.random() < 0.5:
             s["wrap"] = [[t["id"], n] for t in s["tasks"] for n in t["deps"] if n in s["py"] and rng.random() < 0.5]
-        yield from with_control("small", s)
+        # thorough: the small scope is exhaustive (about 9 % of it is well-formed); a repaired twin for every fourth ill-formed graph
+        yield from with_control("small", s, 0.25 if ctx.thorough else 1.0)
     ctx.extra["small_scope_total"] = total
     ctx.extra["small_scope_run"] = run
     ctx.exhaustive = ctx.thorough
     # random up to 8 tasks; about half of them are made ill-formed
-    for _ in range(ctx.scale(1200, 30000)):
+    for _ in range(ctx.scale(1200, 12000)):
         ill = rng.random() < 0.45
         yield from with_control("rand", dagproj.gen_random(rng, nt=(2, 8), cyclic_p=0.8 if ill else 0.0, shared_p=0.35 if ill else 0.0))
     # cycles of every length, through files / PythonNodes / after / mixed
-    for _ in range(ctx.scale(8, 150)):
+    for _ in range(ctx.scale(8, 60)):
         for length in range(1, 7):
             for through in ("file", "py", "after", "mixed"):
                 yield from with_control(f"cycle{length}", dagproj.gen_cycle(rng, length, through))
     # shared products, 2..4 producers, per spelling and mixed, files and PythonNodes
-    for _ in range(ctx.scale(5, 80)):
+    for _ in range(ctx.scale(5, 30)):
         for k in (2, 3, 4):
             for mode in ("mixed",) + dagproj.SPELLINGS:
                 yield from with_control(f"shared{k}", dagproj.gen_shared(rng, k, mode))
@@ -207,7 +208,7 @@ def e2e_cases(ctx):
     cases = [(tag, s) for tag, s in corpus()]
     # a seeded slice of the small scope with every after-form
     small = list(dagproj.enum_small(3, 3)) if ctx.thorough else None
-    n_small = ctx.scale(30, 1500)
+    n_small = ctx.scale(30, 600)
     if small is None:
         # reservoir over the generator without materialising it
         pick = []
@@ -226,14 +227,14 @@ def e2e_cases(ctx):
         dagproj.add_spellings(rng, s)
         s["stale"] = rng.random() < 0.4
         cases.append(("small", s))
-    for _ in range(ctx.scale(40, 1200)):
+    for _ in range(ctx.scale(40, 600)):
         ill = rng.random() < 0.45
         cases.append(("rand", dagproj.gen_random(rng, nt=(2, 8), cyclic_p=0.8 if ill else 0.0, shared_p=0.35 if ill else 0.0)))
-    for _ in range(ctx.scale(1, 12)):
+    for _ in range(ctx.scale(1, 6)):
         for length in range(1, 7):
             for through in ("file", "py", "after", "mixed"):
                 cases.append((f"cycle{length}", dagproj.gen_cycle(rng, length, through)))
-    for _ in range(ctx.scale(1, 10)):
+    for _ in range(ctx.scale(1, 5)):
         for k in (2, 3, 4):
             for mode in ("mixed", rng.choice(dagproj.SPELLINGS)):
                 cases.append((f"shared{k}", dagproj.gen_shared(rng, k, mode)))
